@@ -82,7 +82,8 @@ def term(pattern):
 
 NAMES = [('g_coord', '_RE_COORD'), ('g_ring', '_RE_LINEAR_RING'), ('g_rings', '_RE_LINEAR_RINGS'), ('g_zm', '_RE_ZM'),
          ('g_point', '_RE_POINT_WKT'), ('g_polygon', '_RE_POLYGON_WKT'), ('g_linestring', '_RE_LINESTRING_WKT'),
-         ('g_multipoint', '_RE_MULTIPOINT_WKT'), ('g_multipolygon', '_RE_MULTIPOLYGON_WKT'),
+         ('g_multipoint', '_RE_MULTIPOINT_WKT'), ('g_multipoint_nested', '_RE_MULTIPOINT_NESTED_WKT'),
+         ('g_multipolygon', '_RE_MULTIPOLYGON_WKT'),
          ('g_multilinestring', '_RE_MULTILINESTRING_WKT')]
 
 
